@@ -85,3 +85,50 @@ package epd
 //@   at-call append requires end == fpos && start == end - int64(len(line)) - 1 && start >= 0
 //@   loop 1: invariant fpos >= 0 && byLines.pos == fpos
 //@   loop 1: modifies fpos, byLines.pos, lineManifest.*
+//@
+//@ # ---- Chunk.Read: the buffered window over the file.  gf is an arbitrary, fixed file offset;
+//@ # ---- fileByte / fileLen are the ghost file.  Assumed (documented io.ReaderAt behaviour, I/O errors
+//@ # ---- other than end-of-file not modelled): ReadAt transfers min(len(b), fileLen-off) bytes of the
+//@ # ---- file starting at off into the front of b.
+//@ ghost gf int64
+//@ define winOK(c) = 0 <= c.mapStart && c.mapStart <= c.mapEnd && c.mapEnd - c.mapStart <= int64(len(c.mapBytes)) && implies(c.mapStart <= gf && gf < c.mapEnd, c.mapBytes[gf - c.mapStart] == fileByte(uint64(gf)))
+//@ define lineOK(a, n) = 0 <= a.start && a.start < a.end && a.end <= int64(fileLen()) && a.end - a.start <= int64(n)
+//@ define curLine(c) = c.chunkLines[c.chunkLinesIx]
+//@ define hasLine(c) = 0 <= c.chunkLinesIx && c.chunkLinesIx < len(c.chunkLines)
+//@
+//@ extern (*os.File).ReadAt
+//@   requires off >= 0
+//@   ensures 0 <= result0 && int64(result0) == min(int64(len(b)), max(int64(0), int64(fileLen()) - off))
+//@   ensures implies(off <= gf && gf < off + int64(result0), b[gf - off] == fileByte(uint64(gf)))
+//@   modifies b.*
+//@
+//@ func (*Chunk).Read
+//@   props C20
+//@   allow-extern io. errors.
+//@   requires winOK(c) && 0 <= int64(fileLen())
+//@   requires implies(hasLine(c), lineOK(curLine(c), len(c.mapBytes)))
+//@   # (after a failed ReadAt the buffer has been overwritten while mapStart/mapEnd still describe the old
+//@   #  window, so the window invariant is only promised on success; a caller must not go on after an error)
+//@   ensures [window]  implies(result1 == nil, winOK(c))
+//@   ensures [extent]  implies(old(hasLine(c)) && result1 == nil, int64(len(result0)) == old(curLine(c).end - curLine(c).start) - 1)
+//@   ensures [content] implies(old(hasLine(c)) && result1 == nil && old(curLine(c).start) <= gf && gf < old(curLine(c).end) - 1, result0[gf - old(curLine(c).start)] == fileByte(uint64(gf)))
+//@   ensures [advance] implies(old(hasLine(c)) && result1 == nil, c.chunkLinesIx == old(c.chunkLinesIx) + 1)
+//@   ensures [eof]     implies(!old(hasLine(c)), len(result0) == 0 && c.chunkLinesIx == old(c.chunkLinesIx))
+//@   modifies c.chunkLinesIx, c.mapStart, c.mapEnd, c.mapBytes.*
+//@   nopanic
+//@
+//@ # ---- Chunker.Open: the window [start, end) of the epoch's shuffled order is collected as
+//@ # ---- manifest[si(start)], manifest[si(start+1)], ... (before sorting by file position).
+//@ func shuffleIndex view named
+//@   trusted definition: si names the value computed by shuffleIndex, a pure function of its arguments (no memory is read or written: frame and range proved in the main contract)
+//@   ensures result == si(x, n, seed) && implies(n > 1, result < n) && implies(n <= 1, result == 0)
+//@   modifies nothing
+//@
+//@ func (Chunker).Open
+//@   props C20
+//@   views named
+//@   allow-extern os. errors. slices.
+//@   at-call SortFunc requires [collected] len(chunkLines) == end - start && implies(0 <= gi && gi < end - start, chunkLines[gi] == c.lineManifest[si(uint64(start + gi), uint64(len(c.lineManifest)), uint64(epoch))])
+//@   nopanic
+//@   loop 1: invariant start <= ix && ix <= end && 0 <= start && end <= len(c.lineManifest) && len(chunkLines) == ix - start && implies(0 <= gi && gi < ix - start, chunkLines[gi] == c.lineManifest[si(uint64(start + gi), uint64(len(c.lineManifest)), uint64(epoch))])
+//@   loop 1: modifies chunkLines.*
